@@ -187,3 +187,27 @@ Definition read_obj (c : cfg) (r : oref) (sh : shape) (stored : list bytes * opt
   | None => Ok (ss, None)
   | Some data => bind (if et then decrypt_stream (c_aes c) okey data else Ok data) (fun d => Ok (ss, Some d))
   end).
+
+(* ---- objects are encrypted as what they RENDER as ---------------------------------------------------------- *)
+
+(* the built-in (Native) values, as far as encryption is concerned *)
+Inductive native :=
+| NvStr (b : bytes)
+| NvOther                       (* numbers, names, booleans, null, references *)
+| NvArr (l : list native)
+| NvDict (l : list (N * native)).
+
+(* the strings of a value in the order the Writer formats (and so encrypts) them *)
+Fixpoint strings_of (v : native) : list bytes :=
+  match v with
+  | NvStr b => [b]
+  | NvOther => []
+  | NvArr l => (fix go (l : list native) := match l with [] => [] | x :: r => strings_of x ++ go r end) l
+  | NvDict l => (fix go (l : list (N * native)) := match l with [] => [] | (_, x) :: r => strings_of x ++ go r end) l
+  end.
+
+(* A pdf.Object of any Go type (pdf.String, pdf.TextString, pdf.Date, a user-defined type, ...) is given to
+   the Writer together with its rendering AsPDF; what is written - and encrypted - is the rendering, in
+   Put, WriteCompressed, stream dictionaries and placeholder values alike. *)
+Definition dobj_of {A : Type} (render : A -> native) (r : oref) (sh : shape) (o : A) (stream : option (list bytes)) : dobj :=
+  {| o_ref := r; o_shape := sh; o_strings := strings_of (render o); o_stream := stream |}.
